@@ -74,40 +74,59 @@ def situation(op, v, wild, c, raw=None):
     if op == "===":
         return "===:" + ("equal" if admits(op, v, wild, c, raw) else
                          ("same-version-other-text" if _raw_is(c, raw) else "different"))
-    lab = op + (".*" if wild else "")
     lc, lv = len(c["release"]), len(v["release"])
-    if op in ("==", "!=") and wild or op == "~=":
+    if (op in ("==", "!=") and wild) or op == "~=":
         rel = v["release"] if op != "~=" else v["release"][:-1]
         if c["epoch"] != v["epoch"]:
             k = "epoch-differs"
         elif zero_pad_prefix(rel, c["release"]):
-            k = "prefix-hit-padded" if len(c["release"]) < len(rel) else ("prefix-hit-exact-len" if len(c["release"]) == len(rel) else "prefix-hit-longer")
+            k = "hit-padded" if lc < len(rel) else ("hit-same-length" if lc == len(rel) else "hit-longer")
         else:
-            k = "prefix-miss"
+            k = "miss-shorter" if lc < len(rel) else "miss"
         if op == "~=":
-            k += ",ge" if GV.ref_cmp(pub(c), v) >= 0 else ",below"
-        if is_pre(c) or is_post(c):
-            k += ",cand-suffix"
-        return lab + ":" + k
+            return "~=:" + k + (",ge" if ref_ge(c, v) else ",below")
+        return "==.*|!=.*:" + k + (",cand-suffix" if is_pre(c) or is_post(c) else "")
     if op in ("==", "!="):
         k = "spec-local" if v["local"] is not None else ("cand-local" if c["local"] is not None else "no-local")
-        k += ",eq" if GV.ref_cmp(pub(c), pub(v)) == 0 else ",ne"
-        if lc != lv and same_release(c, v):
-            k += ",padded"
-        return lab + ":" + k
+        if GV.ref_cmp(c if v["local"] is not None else pub(c), v) == 0:
+            k += ",eq" + ("-padded" if lc != lv else "")
+        elif GV.ref_cmp(pub(c), pub(v)) == 0:
+            k += ",ne-by-local-only"
+        else:
+            k += ",ne"
+        return "==|!=:" + k
+    if op in ("<=", ">="):
+        o = GV.ref_cmp(pub(c), v)
+        k = {-1: "below", 0: "equal", 1: "above"}[o]
+        if o == 0:
+            k += ("-padded" if lc != lv else "") + (",local-of-V" if c["local"] is not None else "")
+        return op + ":" + k
     o = GV.ref_cmp(c, v)
-    k = {-1: "below", 0: "equal", 1: "above"}[o]
-    if c["local"] is not None:
-        k += ",local-of-V" if GV.ref_cmp(pub(c), v) == 0 else ",cand-local"
+    if op == "<":
+        if o >= 0:
+            return "<:not-below" + (",equal" if o == 0 else "")
+        k = "below"
+        if same_release(c, v):
+            k += ",same-release" + ("-padded" if lc != lv else "")
+            if is_pre(c):
+                k += ",cand-pre" + ("(V-pre)" if is_pre(v) else "(V-final:excluded)")
+        return "<:" + k
+    if o <= 0:
+        return ">:not-above" + (",equal" if o == 0 else "")
+    k = "above"
+    if c["local"] is not None and GV.ref_cmp(pub(c), v) == 0:
+        return ">:above,local-of-V:excluded"
     if same_release(c, v):
-        k += ",same-release"
-        if lc != lv:
-            k += "-padded"
-        if op == "<" and is_pre(c):
-            k += ",cand-pre" + ("(V-pre)" if is_pre(v) else "(V-not-pre)")
-        if op == ">" and is_post(c):
-            k += ",cand-post" + ("(V-post)" if is_post(v) else "(V-not-post)")
-    return lab + ":" + k
+        k += ",same-release" + ("-padded" if lc != lv else "")
+        if is_post(c):
+            k += ",cand-post" + ("(V-post)" if is_post(v) else "(V-not-post:excluded)")
+        if c["local"] is not None:
+            k += ",cand-local"
+    return ">:" + k
+
+
+def ref_ge(c, v):
+    return GV.ref_cmp(pub(c), v) >= 0
 
 
 def _raw_is(c, raw):
